@@ -214,6 +214,11 @@ def discharge(ob: Obligation, want_model: bool = True, second_opinion: bool = Fa
             s.add(c)
     if ob.kind == "cover":
         ob.backend = "z3-5.1.0"
+        if any(c is False for c in ob.pc):
+            ob.status = "refuted"
+            ob.detail = "the path condition contains a literal False (vacuous)"
+            ob.ms = (time.time() - t0) * 1000
+            return
         if small_scope([c for c in ob.pc if c is not True and c is not False], 2000, (1, 2, 3)) is not None:
             ob.status = "proved"
             ob.detail = "sat (small-scope witness of the precondition)"
